@@ -103,3 +103,32 @@ def reuse_check(fn, args, kwargs=None, fresh_fn=None):
         return "stale", {"history": "call after the caller scaled the first result in place",
                          "n_results": len(fresh)}
     return "ok", None
+
+
+def keyword_check(fn, args, kwargs=None, out=None):
+    """Calling-convention relation: the same call with every positional argument given by its documented
+    parameter name, in the opposite order.  -> ("n/a" | "ok" | "differs" | "raises", detail)
+
+    `out` is the answer of the positional call (taken before; bitwise comparison, NaN == NaN)."""
+    import inspect
+    kwargs = dict(kwargs or {})
+    try:
+        params = list(inspect.signature(fn).parameters.values())
+    except (TypeError, ValueError):
+        return "n/a", None
+    if len(args) == 0 or len(params) < len(args) or any(
+            p.kind is not inspect.Parameter.POSITIONAL_OR_KEYWORD for p in params[:len(args)]):
+        return "n/a", None
+    kw = {}
+    for p, a in reversed(list(zip(params, args))):
+        kw[p.name] = a
+    for k in reversed(list(kwargs)):
+        kw[k] = kwargs[k]
+    try:
+        with np.errstate(all="ignore"):
+            out2 = fn(**kw)
+    except Exception as exc:
+        return "raises", {"keywords": list(kw), "exception": repr(exc)}
+    if not _same(_snapshot(out), _snapshot(out2)):
+        return "differs", {"keywords": list(kw)}
+    return "ok", None
